@@ -1,5 +1,32 @@
 from check import run_diff_property
 
+def varint_wrong(o, i):
+    """the decoder returned an integer that is not the value RFC 7541 section 5.1 assigns to the octets it consumed (e.g. a
+    value wrapped modulo 2^64): a concrete failing input whatever any model says"""
+    if not (o.startswith('rdvarint ') and i.startswith('ok ')):
+        return False
+    try:
+        _, n, hx = o.split(' ')
+        n, b = int(n), bytes.fromhex(hx)
+        _, v, used = i.split(' ')
+        v, used = int(v), int(used)
+        if used < 1 or used > len(b):
+            return True
+        val = b[0] & ((1 << n) - 1)
+        if val == (1 << n) - 1:
+            m = 0
+            for k in range(1, used):
+                val += (b[k] & 0x7f) << m
+                m += 7
+            if b[used - 1] & 0x80:
+                return True          # stopped in the middle of the integer
+        elif used != 1:
+            return True
+        return val != v
+    except Exception:
+        return False
+
+
 def table_differs(o, i, m):
     """the dynamic table's content is specified by RFC 7541 section 4.4 and the model's table has been proved to be exactly
     that (C18.add_exact, exact_fit_kept, setMaxSize_bounded): an implementation whose table differs after the same
@@ -14,7 +41,7 @@ def table_differs(o, i, m):
 CFG = dict(
     streams=[('hpack', 600, 12000)],
     oracle_ops={'hprt', 'hpfrag'},
-    self_evident=lambda o, i: i.startswith('panic'),
+    self_evident=lambda o, i: i.startswith('panic') or varint_wrong(o, i),
     spec_part=table_differs,
     rule=("(a) encoder operation sequences (fields with any bytes in names/values, repeated fields, fields larger than the table, "
           "sensitive fields, SetMaxDynamicTableSize / Limit schedules): every WriteField's bytes and the table compared with the "
